@@ -136,7 +136,8 @@ def run(ctx):
     ctx.rule("C01.e", "signed promotion: in binary (non-shift) and ternary operators exactly the unsigned operand is wrapped "
                       "in $signed when signs differ, result sign = OR; unary minus wraps iff unsigned and yields signed",
              min_sites=13)
-    ctx.rule("C01.f", "comb always blocks: a reset-value default line for every target precedes the statements", min_sites=4)
+    ctx.rule("C01.f", "comb always blocks: a reset-value default line for every target precedes the statements; only a single "
+                      "whole-signal assignment is printed as a wire", min_sites=5)
     ctx.rule("C01.g", "register initialiser is the printed sig.reset", min_sites=1)
     ctx.rule("C01.h", "memory template: helper registers written iff read; exactly one dat_r driver per port; write block "
                       "under we (with the lane bit iff granular); NO_CHANGE read under !we; re wraps the read", min_sites=13)
@@ -150,7 +151,7 @@ def run(ctx):
                       "the memory width), in hex, and is loaded into the declared memory", min_sites=5)
     ctx.rule("C01.m", "slice lowering: a slice of a Cat/Replicate/nested slice is re-targeted to the one element that holds all its "
                       "bits with start made relative to it; the element offset restarts for every Cat entered; containment tests "
-                      "evaluated exhaustively on a small integer domain against their specification", min_sites=13)
+                      "evaluated exhaustively on a small integer domain against their specification", min_sites=8)
     ctx.rule("C01.l", "each always @(posedge clk) block pairs the clock and the statements of the same sync domain; the "
                       "simulator applies insert_resets too", min_sites=2)
 
@@ -418,6 +419,48 @@ def run(ctx):
     gc = em.func("_generate_constant")
     ok = any(isinstance(n, ast.Return) and isinstance(n.value, ast.Tuple) and norm(n.value.elts[1]) == "node.signed" for n in ast.walk(gc))
     ctx.ob("C01.e", EXP, "_generate_constant", "constant sign flag = node.signed", ok, "" if ok else "constant does not return node.signed", gc)
+
+    # ================================================================ C01.f (wire classification)
+    # a comb target is printed as a continuous `assign` (no reset default) only when its single driver assigns the *whole* signal:
+    # every way _use_wire() can answer true passes "one statement", "an _Assign" and "not a slice target"
+    uw = vm.func("_use_wire")
+    need = [("len(stmts) == 1", True), ("isinstance(stmts[0], _Assign)", True), ("isinstance(stmts[0].l, _Slice)", False)]
+    n_ret = 0
+    bad_uw = None
+    for p in P.feasible_paths(uw):
+        if p.end != "return" or p.end_node.value is None:
+            continue
+        n_ret += 1
+        facts = [(P.canon_test(t, pol)) for t, pol in p.tests_before(len(p.ev))]
+        rv = p.end_node.value
+        # the returned expression, taken apart like a test: it is true only if all its conjuncts are
+        conj = []
+
+        def split(e, pol=True):
+            if isinstance(e, ast.BoolOp) and isinstance(e.op, ast.And) and pol:
+                for x in e.values:
+                    split(x, True)
+            elif isinstance(e, ast.BoolOp) and isinstance(e.op, ast.Or) and not pol:
+                for x in e.values:
+                    split(x, False)
+            elif isinstance(e, ast.UnaryOp) and isinstance(e.op, ast.Not):
+                split(e.operand, not pol)
+            else:
+                conj.append(P.canon_test(e, pol))
+        if isinstance(rv, ast.Constant):
+            if not rv.value:
+                continue            # answers "no wire": nothing to show
+        else:
+            split(rv)
+        have = set(facts) | set(conj)
+        miss = [t for t, pol in need if P.canon_test(t, pol) not in have]
+        if miss and bad_uw is None:
+            bad_uw = (p, miss)
+    ctx.ob("C01.f", VER, "_use_wire", "wire only for a single whole-signal assignment (one statement, an _Assign, not a slice target)",
+           n_ret > 0 and bad_uw is None,
+           "" if (n_ret and bad_uw is None) else (f"_use_wire can answer true without {bad_uw[1]} (return at L{bad_uw[0].end_node.lineno}): a signal driven "
+                                                 f"by one assignment to a slice of itself becomes a wire with `assign y[3:0] = ..` -- its other bits are "
+                                                 f"undriven in Verilog while the simulator holds them at the reset value" if bad_uw else "no return"), uw)
 
     # ================================================================ C01.f
     for fname, loopvar in (("_generate_combinatorial_logic_sim", None), ("_generate_combinatorial_logic_synth", "g[0]")):
@@ -738,113 +781,93 @@ def _ieval(e, env):
 def _slice_lowering(ctx, vm):
     """C01.m: a slice of a Cat / Replicate / nested slice is re-targeted to the element that holds all its bits, with the
     offset made relative to that element (the simulator evaluates the slice on the whole value: both must select the same bits)."""
-    # ---- _lower_slice_cat
-    fn = vm.func("_lower_slice_cat")
-    ctx.analysed["functions"].add(f"{VER}::_lower_slice_cat")
-    a = [x.arg for x in fn.args.args]
-    ctx.need(len(a) == 3, "_lower_slice_cat(node, start, length): signature changed")
-    node_v, start_v, len_v = a
-    outer = [n for n in fn.body if isinstance(n, ast.While)]
-    ctx.need(len(outer) == 1, "_lower_slice_cat: outer `while isinstance(node, Cat)` loop not found")
-    inner = [n for n in outer[0].body if isinstance(n, ast.For)]
-    ctx.need(len(inner) == 1 and isinstance(inner[0].target, ast.Name), "_lower_slice_cat: inner loop over the Cat's elements not found")
-    el = inner[0].target.id
-    ok = norm(outer[0].test) == f"isinstance({node_v}, Cat)" and norm(inner[0].iter) == f"{node_v}.l"
-    ctx.ob("C01.m", VER, "_lower_slice_cat", "descends while the node is a Cat, over its elements in order (LSB first)", ok,
-           "" if ok else f"while {norm(outer[0].test)} / for {el} in {norm(inner[0].iter)}", outer[0])
-    # the running offset: the variable that is += len(el) in the inner loop
-    accs = [n for n in ast.walk(inner[0]) if isinstance(n, ast.AugAssign) and isinstance(n.op, ast.Add) and norm(n.value) == f"len({el})"
-            and isinstance(n.target, ast.Name)]
-    ctx.need(len(accs) == 1, "_lower_slice_cat: running element offset (`+= len(e)`) not found")
-    off = accs[0].target.id
-    # (1) offsets are relative to the current node: fresh in every iteration of the outer loop
-    synth = ast.FunctionDef(name="<iteration>", args=ast.arguments(posonlyargs=[], args=[], kwonlyargs=[], kw_defaults=[], defaults=[]),
-                            body=outer[0].body, decorator_list=[], lineno=outer[0].lineno, col_offset=0)
-    stale = None
-    npaths = 0
-    for p in P.feasible_paths(synth):
-        npaths += 1
-        have = False
-        for e in p.ev:
-            node = e[1]
-            if e[0] == "stmt" and isinstance(node, ast.Assign) and any(isinstance(t, ast.Name) and t.id == off for t in node.targets):
-                have = True
-                continue
-            tgt = node.iter if (e[0] == "stmt" and isinstance(node, ast.For)) else node
-            if e[0] == "stmt" and isinstance(node, (ast.If, ast.While)):
-                continue
-            if any(isinstance(x, ast.Name) and x.id == off for x in ast.walk(tgt)) and not have:
-                stale = (node, p)
-                break
-        if stale:
-            break
-    ctx.analysed["paths"] += npaths
-    ctx.ob("C01.m", VER, "_lower_slice_cat", f"element offset `{off}` restarts at 0 for every Cat that is entered", stale is None,
-           "" if stale is None else f"`{off}` is used at line {getattr(stale[0], 'lineno', '?')} of one iteration of the descent without having been "
-                                    f"reset in it: inside a nested Cat the elements are compared against offsets shifted by the position of the "
-                                    f"inner Cat, the slice silently selects other bits than the simulator", stale[0] if stale else fn)
-    zero = [n for n in ast.walk(fn) if isinstance(n, ast.Assign) and norm(n.targets[0]) == off]
-    ok = len(zero) >= 1 and all(norm(z.value) == "0" for z in zero)
-    ctx.ob("C01.m", VER, "_lower_slice_cat", f"`{off}` starts at 0", ok, "" if ok else f"{[norm(z) for z in zero]}", outer[0])
-    # (2) containment test
-    ifs = [n for n in inner[0].body if isinstance(n, ast.If)]
-    ctx.need(len(ifs) == 1, "_lower_slice_cat: element selection test not found")
-    bad = None
-    n_eval = 0
-    try:
-        for cs in range(0, 5):
-            for le in range(1, 5):
-                for st in range(0, 9):
-                    for ln in range(1, 5):
-                        got = bool(_ieval(ifs[0].test, {off: cs, start_v: st, len_v: ln, f"len({el})": le}))
-                        want = cs <= st and st + ln <= cs + le
-                        n_eval += 1
-                        if got != want and bad is None:
-                            bad = (cs, le, st, ln, got)
-    except (KeyError, ValueError) as ex:
-        ctx.need(False, f"_lower_slice_cat: selection test `{norm(ifs[0].test)}` not understood ({ex})")
-    ctx.ob("C01.m", VER, "_lower_slice_cat", "element chosen iff it holds every bit of the slice", bad is None,
-           "" if bad is None else f"`{norm(ifs[0].test)}` is {bad[4]} for element offset {bad[0]}, element width {bad[1]}, slice start {bad[2]}, "
-                                  f"length {bad[3]}: a slice that crosses (or misses) the element is re-targeted to it", ifs[0])
-    ctx.analysed["paths"] += n_eval
-    # (3) re-targeting
-    body = ifs[0].body
-    sub = [n for n in body if isinstance(n, ast.AugAssign) and isinstance(n.op, ast.Sub) and norm(n.target) == start_v and norm(n.value) == off] + \
-          [n for n in body if isinstance(n, ast.Assign) and norm(n.targets[0]) == start_v and norm(n.value) == f"{start_v} - {off}"]
-    ren = [n for n in body if isinstance(n, ast.Assign) and norm(n.targets[0]) == node_v and norm(n.value) == el]
-    brk = [n for n in body if isinstance(n, ast.Break)]
-    ok = len(sub) == 1 and len(ren) == 1 and len(brk) == 1 and len(body) == 3
-    ctx.ob("C01.m", VER, "_lower_slice_cat", "on selection: start becomes relative to the element, node becomes the element, scan stops", ok,
-           "" if ok else f"{[norm(x) for x in body]}", ifs[0])
-    ok = accs[0] in inner[0].body and inner[0].body.index(accs[0]) > inner[0].body.index(ifs[0])
-    ctx.ob("C01.m", VER, "_lower_slice_cat", "offset advances by the element width after an element is rejected", ok, "" if ok else "order changed", accs[0])
-    rets = [n for n in ast.walk(fn) if isinstance(n, ast.Return)]
-    ok = len(rets) == 1 and norm(rets[0].value) == f"({node_v}, {start_v})"
-    ctx.ob("C01.m", VER, "_lower_slice_cat", "returns (node, start)", ok, "" if ok else f"{[norm(r.value) for r in rets]}", fn)
+    # ---- _lower_slice_cat / _lower_slice_replicate: interpreted exactly (lxs/pyconst.py) on small expression trees of opaque leaves;
+    #      whatever the functions return must select the same bits as the slice they were given, and must have descended whenever
+    #      one element / one copy holds all the bits (a slice of a concatenation cannot be printed in Verilog)
+    import itertools
+    from .. import pyconst
+    fc, fr = vm.func("_lower_slice_cat"), vm.func("_lower_slice_replicate")
+    for f_ in (fc, fr):
+        ctx.analysed["functions"].add(f"{VER}::{f_.name}")
+        ctx.need(len(f_.args.args) == 3, f"{f_.name}(node, start, length): signature changed")
 
-    # ---- _lower_slice_replicate
-    fr = vm.func("_lower_slice_replicate")
-    ctx.analysed["functions"].add(f"{VER}::_lower_slice_replicate")
-    ar = [x.arg for x in fr.args.args]
-    ifs = [n for n in ast.walk(fr) if isinstance(n, ast.If)]
-    ctx.need(len(ifs) == 1 and len(ar) == 3, "_lower_slice_replicate: shape changed")
-    bad = None
+    def leaf(name, w):
+        return pyconst.NS(__cls__={"Signal"}, __len__=w, name=name)
+
+    def cat(*els):
+        return pyconst.NS(__cls__={"Cat"}, l=list(els), __len__=sum(e["__len__"] for e in els))
+
+    def rep(v, n):
+        return pyconst.NS(__cls__={"Replicate"}, v=v, n=n, __len__=v["__len__"] * n)
+
+    def bits(n):
+        if "Signal" in n["__cls__"]:
+            return [(n["name"], k) for k in range(n["__len__"])]
+        if "Cat" in n["__cls__"]:
+            return [b for e in n["l"] for b in bits(e)]
+        return bits(n["v"]) * n["n"]
+    a_, b_, c_ = leaf("a", 2), leaf("b", 3), leaf("c", 1)
+    trees = [cat(a_, b_), cat(a_, b_, c_), cat(c_, cat(a_, b_)), cat(cat(a_, c_), b_), cat(b_, cat(c_, cat(a_, c_))),
+             rep(a_, 3), rep(b_, 2), rep(cat(a_, c_), 2), cat(rep(a_, 2), b_), rep(rep(a_, 2), 2), cat(a_), rep(c_, 4)]
+    funcs_ = {n.name: n for n in vm.tree.body if isinstance(n, ast.FunctionDef)}
+    verdict = {"_lower_slice_cat": {"same": None, "down": None, "n": 0}, "_lower_slice_replicate": {"same": None, "down": None, "n": 0}}
     try:
-        for w in range(1, 5):
-            for st in range(0, 13):
-                for ln in range(1, 6):
-                    got = bool(_ieval(ifs[0].test, {ar[1]: st, ar[2]: ln, f"len({ar[0]}.v)": w}))
-                    want = (st // w) == ((st + ln - 1) // w)
-                    if got != want and bad is None:
-                        bad = (w, st, ln, got)
-    except (KeyError, ValueError) as ex:
-        ctx.need(False, f"_lower_slice_replicate: test `{norm(ifs[0].test)}` not understood ({ex})")
-    ctx.ob("C01.m", VER, "_lower_slice_replicate", "descends iff the slice lies inside one copy", bad is None,
-           "" if bad is None else f"`{norm(ifs[0].test)}` is {bad[3]} for copy width {bad[0]}, start {bad[1]}, length {bad[2]}", ifs[0])
-    upd = [norm(n) for n in ifs[0].body]
-    ok = sorted(upd) == sorted([f"{ar[1]} = {ar[1]} % len({ar[0]}.v)", f"{ar[0]} = {ar[0]}.v"]) and upd[0].startswith(ar[1]) or \
-        sorted(upd) == sorted([f"{ar[1]} %= len({ar[0]}.v)", f"{ar[0]} = {ar[0]}.v"]) and upd[0].startswith(ar[1])
-    ctx.ob("C01.m", VER, "_lower_slice_replicate", "start taken modulo the copy width, then node becomes the copy", ok, "" if ok else f"{upd}", ifs[0])
+        for tree in trees:
+            W = tree["__len__"]
+            allb = bits(tree)
+            for st in range(W):
+                for ln in range(1, W - st + 1):
+                    for f_ in (fc, fr):
+                        pa = [x.arg for x in f_.args.args]
+                        got = pyconst.call(f_, {pa[0]: tree, pa[1]: st, pa[2]: ln}, funcs=funcs_)
+                        v = verdict[f_.name]
+                        v["n"] += 1
+                        ok_shape = got[0] == "return" and isinstance(got[1], tuple) and len(got[1]) == 2 and isinstance(got[1][0], pyconst.NS) and \
+                            isinstance(got[1][1], int)
+                        if not ok_shape:
+                            v["same"] = v["same"] or (tree, st, ln, got)
+                            continue
+                        n2, s2 = got[1]
+                        if not (0 <= s2 and s2 + ln <= n2["__len__"] and bits(n2)[s2:s2 + ln] == allb[st:st + ln]):
+                            v["same"] = v["same"] or (tree, st, ln, (n2["__cls__"], s2))
+                        kind = "Cat" if f_ is fc else "Replicate"
+                        if kind in tree["__cls__"]:
+                            if kind == "Cat":
+                                off, inside = 0, False
+                                for e in tree["l"]:
+                                    inside = inside or (off <= st and st + ln <= off + e["__len__"])
+                                    off += e["__len__"]
+                            else:
+                                w_ = tree["v"]["__len__"]
+                                inside = st // w_ == (st + ln - 1) // w_
+                            if inside and n2 is tree:
+                                v["down"] = v["down"] or (tree, st, ln)
+                            if kind in n2["__cls__"] and n2 is not tree:
+                                # stopped on an inner node of the same kind: allowed only if the slice really crosses its parts
+                                pass
+    except pyconst.Unknowable as ex:
+        ctx.need(False, f"slice lowering helpers cannot be interpreted on constant expression trees ({ex})")
+
+    def tshow(t):
+        if "Signal" in t["__cls__"]:
+            return f"{t['name']}[{t['__len__']}]"
+        if "Cat" in t["__cls__"]:
+            return "Cat(" + ", ".join(tshow(e) for e in t["l"]) + ")"
+        return f"Replicate({tshow(t['v'])}, {t['n']})"
+    for fname, roles in (("_lower_slice_cat", ("element chosen iff it holds every bit of the slice",
+                                               "on selection: start becomes relative to the element, node becomes the element, scan stops")),
+                         ("_lower_slice_replicate", ("descends iff the slice lies inside one copy",
+                                                     "start taken modulo the copy width, then node becomes the copy"))):
+        v = verdict[fname]
+        ctx.analysed["paths"] += v["n"]
+        ok = v["same"] is None
+        ctx.ob("C01.m", VER, fname, roles[1], ok,
+               "" if ok else f"{fname}({tshow(v['same'][0])}, start={v['same'][1]}, length={v['same'][2]}) returns {v['same'][3]}: not the same bits as the "
+                             f"slice of the whole value (which is what the simulator evaluates)", vm.func(fname))
+        ok = v["down"] is None
+        ctx.ob("C01.m", VER, fname, roles[0], ok,
+               "" if ok else f"{fname}({tshow(v['down'][0])}, start={v['down'][1]}, length={v['down'][2]}) does not descend although one part holds "
+                             f"all the bits: a slice of a concatenation / replication would be printed", vm.func(fname))
 
     # ---- _ComplexSliceLowerer.visit_Slice
     vs = vm.method("_ComplexSliceLowerer", "visit_Slice")
